@@ -27,6 +27,13 @@ Check(t) ==
     /\ (l > 1 /\ TraceLog[l - 1].tid = t.tid) =>
          Report("C17_DeleteRemovesExactlyOwned", C17_DeleteDoesNotCrash(St(TraceLog[l - 1]), t.op, t.pk, t.status),
                 [op |-> t.op, status |-> t.status, kind |-> "deletion of an existing object answered 5xx"])
+    \* creating a stream under a directory that is already in use creates nothing and removes nothing (names stay unique;
+    \* no operation but a deletion removes rows): whatever the answer, streams, files and blobs are as before
+    /\ (l > 1 /\ TraceLog[l - 1].tid = t.tid /\ t.op = "add_stream") =>
+         LET a == St(TraceLog[l - 1]) IN
+         (\E x \in a.streams : x.dir = t.a) =>
+             Report("C17_DeleteRemovesExactlyOwned", a.streams = b.streams /\ a.files = b.files /\ a.blobs = b.blobs,
+                    [op |-> t.op, kind |-> "create with a directory in use changed existing rows", status |-> t.status])
     /\ (l > 1 /\ TraceLog[l - 1].tid = t.tid /\ t.applied = 1) =>
          LET a == St(TraceLog[l - 1]) IN
          /\ (t.op = "delete_stream" => Report("C17_DeleteRemovesExactlyOwned", C17_DeleteStreamExact(a, b, t.pk), t.op))
